@@ -82,6 +82,16 @@ def generate(seed, tier="quick"):
     steps = []
     for _ in range(frng.choice([1, 1, 2, 3])):
         steps.append(frng.choice([["create", "fix"], list(CATS), ["trim"], ["fix"], [], ["create"], ["update"], [c for c in CATS if frng.random() < 0.5]]))
+    zrng = sub(seed, "samesize")
+    if zrng.random() < 0.3:
+        # a repair that keeps the size of a file (one digit becomes another), followed by further sessions in the same directory:
+        # what a later real session executes must be the rewritten source (bytecode caches are validated by mtime and size)
+        a, b = zrng.sample(range(1, 10), 2)
+        prog["files"].append({"name": "test_zsize.py", "header": {}, "sites": {"zs": {"op": "eq", "place": "direct", "arg": str(a), "prev": ["int", a]}},
+                              "tests": [{"name": "test_samesize", "events": [{"t": "cmp", "eid": "ezs", "site": "zs", "vals": [["int", b]], "style": zrng.choice(["assert", "rec"])}]}]})
+        steps = [zrng.choice([["fix"], ["create", "fix"]])] + steps[:2]
+        if len(steps) < 2:
+            steps.append(zrng.choice([[], ["trim"], ["fix"]]))
     return {"program": prog, "steps": steps}
 
 
